@@ -20,8 +20,7 @@ From Coq Require Import Lia Permutation.
 
 (** ** The carried-over start state *)
 
-Definition init_carry (cf : cfg) (recv : bool) (cnt pend : nat) : state :=
-  (init cf) <| w := wrap0 <| w_recv := recv |> <| w_cnt := cnt |> |> <| ipend := pend |>.
+(* [init_carry] is defined in Sched.v (it is part of the executable model). *)
 
 Definition run_carry (cf : cfg) (recv : bool) (cnt pend : nat) (evs : list event) : state :=
   fold_left (step cf) evs (init_carry cf recv cnt pend).
